@@ -118,7 +118,18 @@ def _o_psbtglobal_keeps_pairs(w):
     return not missing and not added, f"dropped {[(k.hex(), v.hex()) for k, v in missing]} added {[(k.hex(), v.hex()) for k, v in added]}"
 
 
-OPS = {"psbtglobal.reser": psbtglobal_reser, "psbtmap.parse": psbtmap_parse, "psbtmap.norm": psbtmap_norm,
+def _reserv(cls):
+    def f(ver: str, b: bytes) -> str:
+        v = int(ver)
+        try:
+            out = cls.parse(b, psbt_version=v, check_validity=False).serialize(psbt_version=v, check_validity=False)
+        except Exception as e:  # noqa: BLE001
+            return "err refused" if common.err_class(e) in ("value", "type", "runtime") else "err " + common.err_class(e)
+        return "ok " + hx(out)
+    return f
+
+
+OPS = {"psbtin.reserv": _reserv(PsbtIn), "psbtout.reserv": _reserv(PsbtOut), "psbtglobal.reser": psbtglobal_reser, "psbtmap.parse": psbtmap_parse, "psbtmap.norm": psbtmap_norm,
        "psbtin.reser0": psbtin_reser(0), "psbtin.reser2": psbtin_reser(2),
        "psbtout.reser0": psbtout_reser(0), "psbtout.reser2": psbtout_reser(2)}
 
@@ -251,11 +262,61 @@ def gen_records(rng):
     return out
 
 
+def raw_tx(rng, how="ok", template=False):
+    """a legacy-serialized transaction, valid for `Tx.assert_valid` or breaking exactly one of its rules"""
+    from btclib import var_int
+    n_in, n_out = rng.choice([1, 1, 2, 3]), rng.choice([1, 1, 2])
+    if template and rng.random() < 0.3:
+        n_in, n_out = rng.choice([(0, 0), (0, 2), (1, 0), (2, 1)])
+    if how == "noin":
+        n_in = 0
+        n_out = rng.choice([0, 2])          # (0 inputs, 1 output) reads as the marker: a different refusal
+    if how == "noout":
+        n_out = 0
+    ops = [(common.rand_bytes(rng, 32), rng.choice([0, 1, 0xFFFFFFFF])) for _ in range(n_in)]
+    if how == "dup" and n_in >= 1:
+        ops.append(ops[0])
+    if how == "coinbase-among" and n_in >= 1:
+        ops.append((bytes(32), 0xFFFFFFFF))
+    sigs = [b"" if template else common.rand_bytes(rng, rng.choice([0, 1, 72])) for _ in ops]
+    if how in ("coinbase-ok", "coinbase-short", "coinbase-long"):
+        ops = [(bytes(32), 0xFFFFFFFF)]
+        sigs = [common.rand_bytes(rng, {"coinbase-ok": rng.choice([2, 50, 100]), "coinbase-short": rng.choice([0, 1]),
+                                        "coinbase-long": 101}[how])]
+    if how == "nullish" and ops:                     # half a null outpoint is an ordinary outpoint
+        ops[0] = rng.choice([(bytes(32), 0), (b"\x01" + bytes(31), 0xFFFFFFFF)])
+    if how == "scriptsig" and ops:
+        sigs[0] = b"\x51"
+    vals = [rng.choice([0, 1, 546, 5000000000, 2100000000000000]) for _ in range(n_out)]
+    if how == "negative" and vals:
+        vals[0] = rng.choice([-1, -2**63])
+    if how == "toomuch" and vals:
+        vals[0] = rng.choice([2100000000000001, 2**63 - 1])
+    if how == "sum":
+        vals = [2100000000000000, rng.choice([1, 2100000000000000])]
+    if how == "sum-ok":
+        vals = [2099999999999999, 1]
+    b = rng.choice([1, 2, 0xFFFFFFFF]).to_bytes(4, "little") + var_int.serialize(len(ops))
+    for (txid, vout), sg in zip(ops, sigs):
+        b += txid + vout.to_bytes(4, "little") + var_bytes.serialize(sg) + rng.choice([0, 0xFFFFFFFF, 0xFFFFFFFE]).to_bytes(4, "little")
+    b += var_int.serialize(len(vals))
+    for v in vals:
+        b += v.to_bytes(8, "little", signed=True) + var_bytes.serialize(common.rand_bytes(rng, rng.choice([0, 1, 22])))
+    return b + rng.choice([0, 500000]).to_bytes(4, "little")
+
+
+TX_HOWS = ["ok", "ok", "ok", "sum-ok", "nullish", "coinbase-ok", "noin", "noout", "dup", "coinbase-among", "coinbase-short",
+           "coinbase-long", "negative", "toomuch", "sum"]
+
+
 def gen_typed_records(rng):
     """input-map records that exercise every deserializer class of the typed layer, mostly well formed"""
     from btclib import var_int
     recs = gen_records(rng)
     bad = rng.random() < 0.25            # one structural defect somewhere
+    if rng.random() < 0.3:               # non-witness utxo: `deserialize_tx` runs `Tx.assert_valid` on it
+        how = rng.choice(TX_HOWS)
+        recs.append((b"\x00", raw_tx(rng, how)))
 
     def fp_path(n=None):
         n = rng.choice([0, 1, 3, 5]) if n is None else n
@@ -272,8 +333,14 @@ def gen_typed_records(rng):
     if r() < 0.2:
         recs.append((b"\x08", rng.choice([b"\x00", b"\x01\x00", b"\x02\x01\xaa\x00", b"\x01\x02\xaa\xbb"])))
     if r() < 0.25:
-        recs.append((b"\x01", rng.choice([0, 1, 5000, 2099999997690000]).to_bytes(8, "little") +
+        recs.append((b"\x01", rng.choice([0, 1, 5000, 2099999997690000, 2100000000000000, 2100000000000001, -1, 2**63 - 1])
+                     .to_bytes(8, "little", signed=True) +
                      var_bytes.serialize(common.rand_bytes(rng, rng.choice([0, 22, 34])))))
+    if r() < 0.12:                        # key origins: twice the same one / a key of a length no key has
+        o = fp_path()
+        ln = rng.choice([33, 33, 65, 78, 32, 34, 0])
+        recs.append((b"\x06" + common.rand_bytes(rng, ln), o))
+        recs.append((b"\x06" + common.rand_bytes(rng, 33), o if r() < 0.6 else fp_path()))
     if r() < 0.25:
         recs.append((b"\x15" + bytes([0xC0]) + common.rand_bytes(rng, 32 * rng.choice([1, 2])),
                      common.rand_bytes(rng, rng.choice([1, 2, 30])) ))
@@ -331,6 +398,8 @@ def gen_out_records(rng):
             recs.append((t, common.rand_bytes(rng, rng.choice([0, 1, 22, 34]))))
     if r() < 0.35:
         recs.append((b"\x02" + rng.choice([b"\x02", b"\x03"]) + common.rand_bytes(rng, 32), fp_path()))
+        if r() < 0.3:
+            recs.append((b"\x02" + common.rand_bytes(rng, rng.choice([33, 65, 78, 32])), recs[-1][1] if r() < 0.6 else fp_path()))
     if r() < 0.35:
         recs.append((b"\x03", rng.choice([0, 1, 5000, -1]).to_bytes(8, "little", signed=True)))
         recs.append((b"\x04", common.rand_bytes(rng, rng.choice([0, 22, 34]))))
@@ -392,6 +461,8 @@ def gen_global_records(rng):
         for _ in range(n_out):
             tx += (1000).to_bytes(8, "little") + b"\x01\x51"
         tx += bytes(4)
+        if r() < 0.4:
+            tx = raw_tx(rng, rng.choice(TX_HOWS + ["scriptsig"]), template=True)
         recs.append((b"\x00", tx))
         if r() < 0.35:
             recs.append((b"\xfb", bytes(4)))                       # an explicit version 0 record
@@ -399,6 +470,11 @@ def gen_global_records(rng):
             recs.append((b"\x02", (2).to_bytes(4, "little")))      # a v2 field in a v0 psbt
     if r() < 0.3:
         recs.append((b"\x09", common.rand_bytes(rng, rng.choice([0, 1, 32]))))
+    if r() < 0.25:                        # global xpubs: key origins, twice the same one now and then
+        o = common.rand_bytes(rng, 4 + 4 * rng.choice([0, 1, 3]))
+        recs.append((b"\x01" + common.rand_bytes(rng, rng.choice([78, 78, 33, 77])), o))
+        if r() < 0.5:
+            recs.append((b"\x01" + common.rand_bytes(rng, 78), o if r() < 0.5 else common.rand_bytes(rng, 8)))
     for _ in range(rng.choice([0, 1, 2])):
         t = rng.choice([0x0a, 0x19, 0xfc, 0xfa, 0xff])
         recs.append((bytes([t]) + common.rand_bytes(rng, rng.randrange(0, 4)), common.rand_bytes(rng, rng.randrange(0, 6))))
@@ -414,6 +490,279 @@ def gen_global_records(rng):
             seen.add(k)
             out.append((k, v))
     rng.shuffle(out)
+    return out
+
+
+# ------------------------------------------------------------------ typed objects built by the constructors
+def _reason(cls, ver, b):
+    """why btclib refuses (message with the numbers and octets taken out), for the coverage histogram"""
+    try:
+        if cls is Psbt:
+            Psbt.parse(wrap_global(b), check_validity=False)
+        else:
+            cls.parse(b, psbt_version=ver, check_validity=False)
+    except Exception as e:  # noqa: BLE001
+        return type(e).__name__ + ": " + re.sub(r"0x[0-9a-f]+|b'.*'|\d+", "#", str(e))[:60]
+    return "serialize"
+
+
+def _records_of_field(serialize_field, type_, value):
+    return list(deserialize_map(BytesIO(serialize_field(type_, value) + b"\x00")).items())
+
+
+def _origin(rng):
+    from btclib.bip32 import BIP32KeyOrigin
+    return BIP32KeyOrigin(common.rand_bytes(rng, 4), [rng.getrandbits(32) for _ in range(rng.choice([0, 1, 3]))])
+
+
+def _bdict(rng, klen, vlens, n=(0, 0, 1, 2)):
+    return {common.rand_bytes(rng, klen): common.rand_bytes(rng, rng.choice(vlens)) for _ in range(rng.choice(n))}
+
+
+def _unknown(rng, known_types):
+    out = {}
+    for _ in range(rng.choice([0, 0, 1, 2])):
+        t = rng.choice([0x09, 0x1f, 0x7f, 0xfc, 0xff] + ([rng.choice(known_types)] if rng.random() < 0.2 else []))
+        out[bytes([t]) + common.rand_bytes(rng, rng.randrange(0, 4))] = common.rand_bytes(rng, rng.randrange(0, 5))
+    return out
+
+
+def gen_psbtin_kwargs(rng):
+    from btclib.script import Witness
+    from btclib.tx import Tx, TxOut
+    from btclib.script import ScriptPubKey
+    r = rng.random
+    rb = lambda n: common.rand_bytes(rng, n)  # noqa: E731
+    opt_u32 = lambda: rng.choice([None, None, 0, 1, 0xFFFFFFFF])  # noqa: E731
+    kw = {}
+    if r() < 0.25:
+        for _ in range(20):
+            try:
+                kw["non_witness_utxo"] = Tx.parse(raw_tx(rng, "ok"), check_validity=True)
+                break
+            except Exception:  # noqa: BLE001 - the outputs add up to more than MAX_MONEY: draw again
+                continue
+    if r() < 0.3:
+        kw["witness_utxo"] = TxOut(rng.choice([0, 1, 5000]), ScriptPubKey(rb(rng.choice([0, 22])), "mainnet", check_validity=False),
+                                   check_validity=False)
+    kw["partial_sigs"] = _bdict(rng, 33, [0, 1, 71])
+    kw["sig_hash_type"] = rng.choice([None, None, 0, 1, 0x81])
+    kw["redeem_script"] = rb(rng.choice([0, 0, 1, 22]))
+    kw["witness_script"] = rb(rng.choice([0, 0, 34]))
+    kw["hd_key_paths"] = {rb(rng.choice([33, 65])): _origin(rng) for _ in range(rng.choice([0, 0, 1, 2]))}
+    kw["final_script_sig"] = rb(rng.choice([0, 0, 0, 1, 72]))
+    kw["final_script_witness"] = rng.choice([None, None, Witness([], check_validity=False), Witness([b""], check_validity=False),
+                                             Witness([rb(2), b""], check_validity=False)])
+    for f in ("ripemd160_preimages", "hash160_preimages"):
+        kw[f] = _bdict(rng, 20, [0, 5], (0, 0, 1))
+    for f in ("sha256_preimages", "hash256_preimages"):
+        kw[f] = _bdict(rng, 32, [0, 5], (0, 0, 1))
+    kw["taproot_key_spend_signature"] = rb(rng.choice([0, 0, 64, 65]))
+    kw["taproot_script_spend_signatures"] = _bdict(rng, 64, [64], (0, 0, 1))
+    kw["taproot_leaf_scripts"] = {rb(33): (rb(rng.choice([0, 3])), rng.choice([0xC0, 0xC2])) for _ in range(rng.choice([0, 0, 1, 2]))}
+    kw["taproot_hd_key_paths"] = {rb(32): ([rb(32) for _ in range(rng.choice([0, 1, 2]))], _origin(rng))
+                                  for _ in range(rng.choice([0, 0, 1, 2]))}
+    kw["taproot_internal_key"] = rb(rng.choice([0, 0, 32]))
+    kw["taproot_merkle_root"] = rb(rng.choice([0, 0, 32]))
+    kw["unknown"] = _unknown(rng, [3, 4, 7, 0x10])
+    kw["previous_tx_id"] = rb(rng.choice([0, 32, 32]))
+    kw["output_index"] = opt_u32()
+    kw["sequence"] = opt_u32()
+    kw["required_time_lock_time"] = rng.choice([None, None, 0, 500000000])
+    kw["required_height_lock_time"] = rng.choice([None, None, 0, 1])
+    kw["musig2_participant_pub_keys"] = {rb(33): [rb(33) for _ in range(rng.choice([1, 2]))] for _ in range(rng.choice([0, 0, 1]))}
+    kw["musig2_pub_nonces"] = _bdict(rng, 66, [66], (0, 0, 1))
+    kw["musig2_partial_sigs"] = _bdict(rng, 66, [32], (0, 0, 1))
+    kw["sp_ecdh_shares"] = _bdict(rng, 33, [33], (0, 0, 1))
+    kw["sp_dleq_proofs"] = _bdict(rng, 33, [64], (0, 0, 1))
+    return kw
+
+
+def typed_of_psbtin(kw):
+    """(whole, keyed, unknown) record lists of a PsbtIn given by its init keywords: each value through the
+    field's own serializer of `_SERIALIZED_FIELDS`, one field at a time -- the loop of `serialize` (version gate,
+    finalizer rule, truthiness, order) is what is left to the model"""
+    from btclib.psbt import psbt_in as M
+    whole_names = {v[0] for v in M._WHOLE_VALUE_FIELDS.values()}
+    w, k, u = [], [], []
+    for type_, field, ser in M._SERIALIZED_FIELDS:
+        value = kw.get(field)
+        if value is None:
+            continue
+        if field == "unknown":
+            u += list(value.items())
+        elif field in whole_names:
+            w += _records_of_field(ser, type_, value)
+        else:
+            k += _records_of_field(ser, type_, value)
+    return w, k, u
+
+
+def gen_psbtout_kwargs(rng):
+    r = rng.random
+    rb = lambda n: common.rand_bytes(rng, n)  # noqa: E731
+    return {
+        "redeem_script": rb(rng.choice([0, 0, 1, 22])), "witness_script": rb(rng.choice([0, 0, 34])),
+        "hd_key_paths": {rb(rng.choice([33, 65])): _origin(rng) for _ in range(rng.choice([0, 0, 1, 2]))},
+        "taproot_internal_key": rb(rng.choice([0, 0, 32])),
+        "taproot_tree": [(rng.randrange(3), 0xC0, rb(rng.randrange(0, 4))) for _ in range(rng.choice([0, 0, 1, 2]))],
+        "taproot_hd_key_paths": {rb(32): ([rb(32) for _ in range(rng.choice([0, 1]))], _origin(rng)) for _ in range(rng.choice([0, 0, 1]))},
+        "unknown": _unknown(rng, [0, 3, 4]),
+        "amount": rng.choice([None, None, 0, 1, 5000]),
+        "script_pub_key": rb(rng.choice([0, 0, 1, 22])),
+        "musig2_participant_pub_keys": {rb(33): [rb(33) for _ in range(rng.choice([1, 2]))] for _ in range(rng.choice([0, 0, 1]))},
+        "sp_v0_info": rb(rng.choice([0, 0, 66])),
+        "sp_v0_label": rng.choice([None, None, 0, 7]),
+    } if r() < 2 else {}
+
+
+def typed_of_psbtout(kw):
+    from btclib.psbt import psbt_utils as U
+    table = [("redeem_script", 0, U.serialize_bytes, True), ("witness_script", 1, U.serialize_bytes, True),
+             ("hd_key_paths", 2, U.serialize_hd_key_paths, False),
+             ("amount", 3, lambda t, v: U.serialize_sized_int(t, v, 8, signed=True), True),
+             ("script_pub_key", 4, U.serialize_bytes, True), ("taproot_internal_key", 5, U.serialize_bytes, True),
+             ("taproot_tree", 6, U.serialize_taproot_tree, True), ("taproot_hd_key_paths", 7, U.serialize_taproot_bip32, False),
+             ("musig2_participant_pub_keys", 8, U.serialize_musig2_participant_pub_keys, False),
+             ("sp_v0_info", 9, U.serialize_bytes, True), ("sp_v0_label", 10, lambda t, v: U.serialize_sized_int(t, v, 4), True)]
+    w, k = [], []
+    for field, ty, ser, whole in table:
+        if kw.get(field) is None:
+            continue
+        (w if whole else k).extend(_records_of_field(ser, bytes([ty]), kw[field]))
+    return w, k, list(kw["unknown"].items())
+
+
+def gen_psbt_global(rng):
+    """a Psbt built by the constructor (maps as small as `Psbt.tx` needs them) and its global fields"""
+    r = rng.random
+    rb = lambda n: common.rand_bytes(rng, n)  # noqa: E731
+    n_in, n_out = rng.choice([0, 1, 2]), rng.choice([0, 1, 2])
+    if n_in == 0 and n_out == 1:
+        n_out = 2                                  # known finding psbt.v0.noinputs.marker: not this stream's business
+    ins = [PsbtIn(previous_tx_id=bytes([i + 1]) * 32, output_index=rng.choice([0, 3]), sequence=rng.choice([None, 0, 0xFFFFFFFE]),
+                  check_validity=False) for i in range(n_in)]
+    outs = [PsbtOut(amount=rng.choice([0, 1000]), script_pub_key=rb(rng.choice([1, 22])), check_validity=False) for _ in range(n_out)]
+    kw = {"tx_version": rng.choice([1, 2, 0xFFFFFFFF]), "inputs": ins, "outputs": outs,
+          "version": rng.choice([0, 0, 2, 2, 1, 3]),
+          "hd_key_paths": {rb(78): _origin(rng) for _ in range(rng.choice([0, 0, 1, 2]))},
+          "unknown": _unknown(rng, [0, 2, 0xfb]),
+          "fallback_lock_time": rng.choice([None, None, 0, 500000]),
+          "tx_modifiable": rng.choice([None, None, 0, 3]),
+          "signed_message": rng.choice([None, None, b"", rb(5)]),
+          "sp_ecdh_shares": _bdict(rng, 33, [33], (0, 0, 1)), "sp_dleq_proofs": _bdict(rng, 33, [64], (0, 0, 1))}
+    return kw
+
+
+def typed_of_global(p):
+    from btclib import var_int
+    from btclib.psbt import psbt_utils as U
+    w = _records_of_field(U.serialize_bytes, b"\x00", p.tx.serialize(include_witness=False, check_validity=False))
+    w += _records_of_field(lambda t, v: U.serialize_sized_int(t, v, 4), b"\x02", p.tx_version)
+    if p.fallback_lock_time is not None:
+        w += _records_of_field(lambda t, v: U.serialize_sized_int(t, v, 4), b"\x03", p.fallback_lock_time)
+    w += _records_of_field(U.serialize_count, b"\x04", len(p.inputs))
+    w += _records_of_field(U.serialize_count, b"\x05", len(p.outputs))
+    if p.tx_modifiable is not None:
+        w += _records_of_field(lambda t, v: U.serialize_sized_int(t, v, 1), b"\x06", p.tx_modifiable)
+    if p.signed_message is not None:
+        w += _records_of_field(U.serialize_bytes, b"\x09", p.signed_message)
+    if 0 <= p.version < 2**32:
+        w += _records_of_field(lambda t, v: U.serialize_sized_int(t, v, 4), b"\xfb", p.version)
+    k = _records_of_field(U.serialize_hd_key_paths, b"\x01", p.hd_key_paths)
+    k += _records_of_field(U.serialize_dict_bytes_bytes, b"\x07", p.sp_ecdh_shares)
+    k += _records_of_field(U.serialize_dict_bytes_bytes, b"\x08", p.sp_dleq_proofs)
+    return w, k, list(p.unknown.items())
+
+
+def _o_object_roundtrip(w):
+    """T1 of the typed layer on the real code: an object the constructor validates (check_validity=True)
+    parses back from its own serialization to an equal object"""
+    cls = {"PsbtIn": PsbtIn, "PsbtOut": PsbtOut}[w["cls"]]
+    kw = {k: (bytes.fromhex(v) if isinstance(v, str) else v) for k, v in w["kw"].items()}
+    if "unknown" in kw:
+        kw["unknown"] = {bytes.fromhex(k): bytes.fromhex(v) for k, v in kw["unknown"].items()}
+    try:
+        x = cls(**kw)                       # validated
+        b = x.serialize(psbt_version=w["ver"])
+    except Exception as e:  # noqa: BLE001
+        return common.err_class(e) in ("value", "type", "runtime"), f"not a valid object: {type(e).__name__}"
+    try:
+        y = cls.parse(b, psbt_version=w["ver"])
+    except Exception as e:  # noqa: BLE001
+        return False, f"{w['cls']}(…).serialize() = {b.hex()} is refused by parse: {type(e).__name__}: {e}"
+    return y == x, f"{w['cls']}: serialize() = {b.hex()[:80]} parses back to an {'equal' if y == x else 'UNEQUAL'} object"
+
+
+ORACLES["psbt.object_roundtrip"] = _o_object_roundtrip
+
+
+def object_roundtrip_case(rng):
+    """a small valid PsbtIn / PsbtOut given by json-able keywords; now and then `unknown` holds a key whose
+    type byte is one of the class's own fields"""
+    cls = rng.choice(["PsbtIn", "PsbtOut"])
+    ver = rng.choice([0, 2])
+    kw = {}
+    if rng.random() < 0.5:
+        kw["redeem_script"] = common.rand_bytes(rng, rng.choice([1, 22])).hex()
+    if rng.random() < 0.5:
+        kw["witness_script"] = common.rand_bytes(rng, rng.choice([1, 34])).hex()
+    unk = {}
+    for _ in range(rng.choice([0, 1, 2])):
+        unk[(bytes([rng.choice([0x3f, 0x7f, 0xfc, 0xff])]) + common.rand_bytes(rng, rng.randrange(0, 3))).hex()] = \
+            common.rand_bytes(rng, rng.randrange(0, 4)).hex()
+    key = None
+    if rng.random() < 0.15:                    # a known type byte filed under `unknown`
+        t = rng.choice([0x00, 0x01]) if cls == "PsbtOut" else rng.choice([0x04, 0x05])
+        unk[bytes([t]).hex()] = common.rand_bytes(rng, 2).hex()
+        key = f"{cls}.unknown.known_type_key"
+    if unk:
+        kw["unknown"] = unk
+    w = {"cls": cls, "ver": ver, "kw": kw}
+    ok, detail = _o_object_roundtrip(w)
+    return ok, detail, (key if not ok else None), w
+
+
+def torecs_line(op, ver, w, k, u, rng):
+    for l in (w, k, u):
+        rng.shuffle(l)
+    return f"{op} {ver} {hx(ser_records(w))},{hx(ser_records(k))},{hx(ser_records(u))}"
+
+
+def _impl_ser(f):
+    try:
+        return "ok " + hx(f())
+    except Exception as e:  # noqa: BLE001
+        return "err refused" if common.err_class(e) in ("value", "type", "runtime") else "err " + common.err_class(e)
+
+
+def typed_object_cases(rng, n):
+    """{stream: [(op line, btclib's answer)]}: objects built through the constructors (no parser involved),
+    serialized by btclib; the model runs its serialize loop on the same fields"""
+    out = {"psbtin.torecs": [], "psbtout.torecs": [], "psbtglobal.torecs": []}
+    for _ in range(n):
+        kw = gen_psbtin_kwargs(rng)
+        x = PsbtIn(**kw, check_validity=False)
+        w, k, u = typed_of_psbtin(kw)
+        for ver in (0, 2) + ((rng.choice([1, 3, 4, 2**32]),) if rng.random() < 0.3 else ()):
+            out["psbtin.torecs"].append((torecs_line("psbtin.torecs", ver, w, k, u, rng),
+                                         _impl_ser(lambda: x.serialize(psbt_version=ver, check_validity=False))))
+        kw = gen_psbtout_kwargs(rng)
+        y = PsbtOut(**kw, check_validity=False)
+        w, k, u = typed_of_psbtout(kw)
+        for ver in (0, 2) + ((rng.choice([1, 3]),) if rng.random() < 0.3 else ()):
+            out["psbtout.torecs"].append((torecs_line("psbtout.torecs", ver, w, k, u, rng),
+                                          _impl_ser(lambda: y.serialize(psbt_version=ver, check_validity=False))))
+        kw = gen_psbt_global(rng)
+        p = Psbt(**kw, check_validity=False)
+        w, k, u = typed_of_global(p)
+        def global_map(p=p):
+            whole = p.serialize(check_validity=False)
+            tail = b"".join(i.serialize(psbt_version=p.version, check_validity=False) for i in p.inputs)
+            tail += b"".join(o.serialize(psbt_version=p.version, check_validity=False) for o in p.outputs)
+            assert whole.endswith(tail) and whole[:5] == b"psbt\xff"
+            return whole[5:len(whole) - len(tail)]
+        out["psbtglobal.torecs"].append((torecs_line("psbtglobal.torecs", p.version, w, k, u, rng), _impl_ser(global_map)))
     return out
 
 
@@ -514,17 +863,22 @@ def run(ctx):
     for _ in range(ctx.n(500, 8000)):
         pool.append(ser_records(gen_typed_records(rng)))
     lines = [f"psbtin.reser{v} o {hx(m)}" for m in pool for v in (0, 2)]
-    outs = ctx.model(ctx.harness.EXE, lines)
     cases = []
     for i, ln in enumerate(lines):
-        im = OPS[ln.split(" ")[0]]("o", bytes.fromhex(ln.split(" ")[2]) if ln.split(" ")[2] != "_" else b"")
-        if outs is not None and im == "err refused" and outs[i].startswith("ok"):
-            ctx.count("psbtin.reser.class", "semantic refusal (not modelled)")
-            continue
+        t = ln.split(" ")
+        b = bytes.fromhex(t[2]) if t[2] != "_" else b""
+        im = OPS[t[0]]("o", b)
+        # every refusal is compared (the model carries the checks that run whatever check_validity says:
+        # Tx.assert_valid, MoneyRange, key lengths, duplicated key origins); the reason is counted for coverage
         ctx.count("psbtin.reser.class", "refused" if im.startswith("err") else
-                  ("kept all" if len(im) - 3 == len(ln.split(" ")[2]) else "normalised (records dropped)"))
+                  ("kept all" if len(im) - 3 == len(t[2]) else "normalised (records dropped)"))
+        if im.startswith("err"):
+            ctx.count("psbtin.refusal", _reason(PsbtIn, int(t[0][-1]), b))
         cases.append((ln, im))
     ctx.correspond("psbtin.reser", ctx.harness.EXE, cases)
+    # version numbers other than 0 and 2: refused by parse and by serialize, whatever the map
+    vlines = [f"psbtin.reserv {rng.choice([1, 3, 4, 255, 2**32 - 1, 2**32, 0, 2])} {hx(m)}" for m in pool[:ctx.n(60, 600)]]
+    ctx.stream("psbtin.reserv", vlines)
 
     # ---- the same for output maps
     pool = list(dict.fromkeys(maps_out[:ctx.n(200, 2000)]))
@@ -532,18 +886,19 @@ def run(ctx):
     for _ in range(ctx.n(400, 6000)):
         pool.append(ser_records(gen_out_records(rng)))
     lines = [f"psbtout.reser{v} o {hx(m)}" for m in pool for v in (0, 2)]
-    outs = ctx.model(ctx.harness.EXE, lines)
     cases = []
     for i, ln in enumerate(lines):
         t = ln.split(" ")
-        im = OPS[t[0]]("o", bytes.fromhex(t[2]) if t[2] != "_" else b"")
-        if outs is not None and im == "err refused" and outs[i].startswith("ok"):
-            ctx.count("psbtout.reser.class", "semantic refusal (not modelled)")
-            continue
+        b = bytes.fromhex(t[2]) if t[2] != "_" else b""
+        im = OPS[t[0]]("o", b)
         ctx.count("psbtout.reser.class", "refused" if im.startswith("err") else
                   ("kept all" if len(im) - 3 == len(t[2]) else "normalised (records dropped)"))
+        if im.startswith("err"):
+            ctx.count("psbtout.refusal", _reason(PsbtOut, int(t[0][-1]), b))
         cases.append((ln, im))
     ctx.correspond("psbtout.reser", ctx.harness.EXE, cases)
+    vlines = [f"psbtout.reserv {rng.choice([1, 3, 4, 2**32, 0, 2])} {hx(m)}" for m in pool[:ctx.n(60, 600)]]
+    ctx.stream("psbtout.reserv", vlines)
 
     # ---- and for the global map (wrapped into a whole psbt on the implementation side)
     pool = list(dict.fromkeys(maps_global[:ctx.n(150, 1500)]))
@@ -556,18 +911,28 @@ def run(ctx):
                key=None if ok_ else "Psbt.global_version.key_data_ignored",
                witness={"oracle": "psbtglobal.keeps_pairs", "witness": {"b": crafted_g.hex()}})
     lines = [f"psbtglobal.reser o {hx(m)}" for m in pool]
-    outs = ctx.model(ctx.harness.EXE, lines)
     cases = []
     for i, ln in enumerate(lines):
         t = ln.split(" ")
         g = bytes.fromhex(t[2]) if t[2] != "_" else b""
         im = psbtglobal_reser("o", g)
-        if outs is not None and im == "err refused" and outs[i].startswith("ok"):
-            ctx.count("psbtglobal.reser.class", "semantic refusal (not modelled)")
-            continue
+        if im.startswith("err"):
+            ctx.count("psbtglobal.refusal", _reason(Psbt, 0, g))
         ctx.count("psbtglobal.reser.class", "refused" if im.startswith("err") else
                   ("kept all" if len(im) - 3 == len(t[2]) else "normalised (records dropped)"))
         if im.startswith("ok"):
             ctx.check("psbtglobal.keeps_pairs", {"b": g.hex()})
         cases.append((ln, im))
     ctx.correspond("psbtglobal.reser", ctx.harness.EXE, cases)
+
+    # ---- typed objects built through the constructors (no parser on the implementation side): the serialize
+    # loop of the model (version gate, finalizer rule, truthiness, order) against `X(**fields).serialize(ver)`
+    for name, cs in typed_object_cases(rng, ctx.n(150, 2500)).items():
+        for _ln, im in cs:
+            ctx.count(name + ".class", "refused (version)" if im.startswith("err") else "written")
+        ctx.correspond(name, ctx.harness.EXE, cs)
+    # the property's own oracle on the same kind of object: a VALID object parses back from its serialization
+    for _ in range(ctx.n(150, 2500)):
+        ok, detail, key, w = object_roundtrip_case(rng)
+        ctx.oracle("psbt.object_roundtrip" + ("" if ok or not key else ":" + key), ok, detail, key=key,
+                   witness={"oracle": "psbt.object_roundtrip", "witness": w})
